@@ -94,6 +94,15 @@ Definition utrace (i : init) (ops : list (op unit)) : list urec :=
   | RotateFuel => [URecStop RotateFuel]
   end.
 
+(* a record in which something panicked: the operation itself, or one of the observations made
+   after it (the harness cannot tell the two apart: both end the history with panic:<kind>) *)
+Definition is_panic {A : Type} (r : res A) : bool := match r with QPanic _ => true | _ => false end.
+Definition urec_panics (r : urec) : bool :=
+  match r with URecStop x => is_panic x | URec _ _ obs => existsb is_panic obs end.
+(* the first k records and whether record k panics *)
+Definition utrace_upto (k : nat) (i : init) (ops : list (op unit)) : list urec * option bool :=
+  let t := utrace i ops in (firstn k t, option_map urec_panics (nth_error t k)).
+
 (* the reference's records for unit elements, through oshape *)
 Definition uspec_trace (ops : list (op unit)) : list (uout * list uout) :=
   map (fun p : out unit * list (out unit) => (oshape (fst p), map oshape (snd p))) (spec_trace unit tt ops).
